@@ -560,7 +560,7 @@ def run_rpc_replay(seed: int, acc) -> int:
     return n
 
 
-PROTO_SPELLINGS = ["Kerberos", "NTLM", "Negotiate", "KERBEROS", "krb5", "kerberos ", " ntlm", "ntlm\n", "", "none", "negotiate-ex"]
+PROTO_SPELLINGS: t.List[t.Any] = [None, 0, False, b"", "Kerberos", "NTLM", "Negotiate", "KERBEROS", "krb5", "kerberos ", " ntlm", "ntlm\n", "", "none", "negotiate-ex"]
 
 
 def run_protocol_names(seed: int, acc) -> int:
